@@ -494,6 +494,44 @@ Proof.
     split; [rewrite M6; destruct fl; reflexivity|rewrite M7; destruct fl; reflexivity].
 Qed.
 
+(* ... and the data sits, as a regular file, at the path of its digest *)
+Theorem stream_write_keyed_stored f fl key o cs now :
+  CacheInv f -> o_sri o = None -> size_ok o (lenN (List.concat cs)) = true ->
+  let data := List.concat cs in let a := algo_of o in
+  wf_rec hash (smeta_of key (commit_opts o (sri_of hash a data) (lenN data)) now) ->
+  lookup (snd (run (stream_write fl (Some key) o cs now) f)) (InCache (cpath hash a data)) = Some (File data).
+Proof.
+  intros Hinv Hns Hs data a Hwf. unfold stream_write.
+  destruct (open_writer_inv f fl (Some key) o Hinv) as [w [f1 [Hr1 [Hw1 [Hi1 [Hd1 [Hk1 [Ho1 [Ha1 [Hfr1 _]]]]]]]]]].
+  rewrite (run_rbind_ok _ _ _ _ _ Hr1).
+  destruct (write_chunks_inv f1 w cs Hw1 Hi1) as [w2 [f2 [Hr2 [Hw2 [Hi2 [[S1 [S2 [S3 S4]]] [Hd2 Hfr2]]]]]]].
+  rewrite (run_rbind_ok _ _ _ _ _ Hr2).
+  rewrite Hd1 in Hd2. cbn [app] in Hd2.
+  assert (w_key w2 = Some key) as Hk2 by congruence.
+  assert (w_opts w2 = o) as Ho2 by congruence.
+  assert (w_algo w2 = a) as Ha2 by (unfold a, algo_of; congruence).
+  assert (declared_ok (w_opts w2) (sri_of hash (w_algo w2) (w_data w2)) = Some (sri_of hash a data)) as Hd
+    by (unfold declared_ok; rewrite Ho2, Hns, Ha2, Hd2; reflexivity).
+  destruct (commit_keyed_accepted f2 w2 now key _ Hw2 Hi2 Hk2 Hd) as [_ [_ [_ [Hcp _]]]];
+    try (rewrite ?Ho2, ?Hd2, ?Ha2; try assumption; apply parse_entry_computed; exact HL).
+  rewrite Ha2, Hd2 in Hcp. exact Hcp.
+Qed.
+
+Theorem write_stored f fl a key data now :
+  CacheInv f ->
+  wf_rec hash (smeta_of key (commit_opts (write_opts fl a data) (sri_of hash a data) (lenN data)) now) ->
+  lookup (snd (run (write hash fl a key data now) f)) (InCache (cpath hash a data)) = Some (File data).
+Proof.
+  intros Hinv Hwf. unfold write. rewrite (oneshot_stream _ _ _ _ _ _ Hinv).
+  pose proof (stream_write_keyed_stored f fl key (write_opts fl a data) (match data with [] => [] | _ => [data] end) now Hinv) as H.
+  rewrite concat_oneshot in H. cbv zeta in H.
+  assert (algo_of (write_opts fl a data) = a) as Ea by (destruct fl; reflexivity).
+  rewrite Ea in H. apply H.
+  - destruct fl; reflexivity.
+  - destruct fl; unfold size_ok; cbn [write_opts o_size]; [reflexivity|apply N.eqb_refl].
+  - exact Hwf.
+Qed.
+
 Theorem write_hash_roundtrip f fl a data :
   CacheInv f ->
   let f' := snd (run (write_hash hash fl a data) f) in
